@@ -33,3 +33,35 @@ Definition chk_trap_sparse area gmax dgdt dt ramppts len pts :=
 Definition chk_mintrap area gmax dgdt dt ramppts w := chk_full (min_trap_grad (T:=FReal) area gmax dgdt dt) ramppts w.
 Definition chk_mintrap_sparse area gmax dgdt dt ramppts len pts :=
   chk_sparse (min_trap_grad (T:=FReal) area gmax dgdt dt) ramppts len pts.
+
+(* ---- spokes_grad (model/Spokes.v) on floats ---------------------------------------------------------------------
+   The implementation's three waveforms are compared with the model's on: the common length, ~50 indexed samples per
+   axis (segment boundaries and random positions), and the sum of every spoke segment and of the tail (per axis).
+   [fit] is the harness's own evaluation of the domain condition (lengths of the implementation's blips vs its lobe) and must agree with
+   the model's blips_fit.  Outside the domain the python slice eats into earlier samples: the model mirrors that (py_take) and is
+   compared all the same.  When the implementation raised (numpy.vstack on unequal lengths), the model must be outside its domain
+   and produce unequal lengths. *)
+From SV Require Import model.Spokes.
+
+Definition seg_sums (subn : nat) (n : nat) (g : list float) : list float :=
+  map (fun i => vsum (firstn subn (skipn (i * subn) g))) (seq 0 n) ++ [vsum (skipn (n * subn) g)].
+
+Definition chk_axis (g : list float) (len : Z) (pts : list (Z * float)) (subn : nat) (n : nat) (atol_s : float)
+                    (sums : list float) : bool :=
+  Z.eqb (Z.of_nat (length g)) len &&
+  forallb (fun p => match nth_error g (Z.to_nat (fst p)) with Some v => close v (snd p) | None => false end) pts &&
+  all2 (fclose atol_s rtol) (seg_sums subn n g) sums.
+
+Definition chk_spokes (kx ky : list float) (tbw thick gmax dgdt dt : float) (fit : bool) (len subn : Z) (atol_s : float)
+                      (px py pz : list (Z * float)) (sx sy sz : list float) : bool :=
+  let g := spokes_grad (T:=FReal) kx ky tbw thick gmax dgdt dt in
+  let n := length kx in
+  Bool.eqb (blips_fit (T:=FReal) kx ky tbw thick gmax dgdt dt) fit &&
+  chk_axis (fst (fst g)) len px (Z.to_nat subn) n atol_s sx &&
+  chk_axis (snd (fst g)) len py (Z.to_nat subn) n atol_s sy &&
+  chk_axis (snd g) len pz (Z.to_nat subn) n atol_s sz.
+
+Definition chk_spokes_raised (kx ky : list float) (tbw thick gmax dgdt dt : float) : bool :=
+  let g := spokes_grad (T:=FReal) kx ky tbw thick gmax dgdt dt in
+  negb (blips_fit (T:=FReal) kx ky tbw thick gmax dgdt dt) &&
+  negb (Nat.eqb (length (fst (fst g))) (length (snd g)) && Nat.eqb (length (snd (fst g))) (length (snd g))).
